@@ -22,11 +22,20 @@ func init() {
 
 func run(t *T) {
 	n := t.Budget(200)
-	for i := 0; i < n; i++ {
+	directed := m.DirectedSpecs()
+	for i := 0; i < n+len(directed); i++ {
 		r := t.R.Fork(uint64(i))
-		spec := m.DrawSpec(r, 6)
+		var spec m.Spec
+		if i < len(directed) {
+			spec = directed[i]
+		} else {
+			spec = m.DrawSpec(r, 6)
+		}
 		base, err := spec.Files(nil)
 		if err != nil {
+			if i < len(directed) {
+				continue
+			}
 			t.Fail("C09/generator", "generator failed", spec, err.Error(), "a list of valid files")
 			continue
 		}
